@@ -180,6 +180,21 @@ theorem nut13_outputs (M : Nat → Point → Point) (seed id : Bytes) (c : Nat) 
     (∀ r, Nut13.deriveBlindingFactor M seed id c = some r → 0 < r ∧ r < n) :=
   ⟨fun _ h => Nut13.deriveSecret_shape M seed id c h, fun _ h => Nut13.deriveBlindingFactor_valid M seed id c h⟩
 
+/-- No two derivations share a path: for one keyset the secret paths of different counters differ, the blinding
+factor paths differ, a secret path is never a blinding factor path (of any keyset and counter), and the wallet's
+P2PK path is none of them. -/
+theorem nut13_paths_distinct (id id' : Bytes) (c c' : Nat) :
+    (Nut13.secretPath id c = Nut13.secretPath id c' → c = c') ∧
+    (Nut13.blindingFactorPath id c = Nut13.blindingFactorPath id c' → c = c') ∧
+    Nut13.secretPath id c ≠ Nut13.blindingFactorPath id' c' ∧
+    Nut13.p2pkPath ≠ Nut13.secretPath id c ∧ Nut13.p2pkPath ≠ Nut13.blindingFactorPath id c :=
+  ⟨Nut13.secretPath_counter_inj id c c', Nut13.blindingFactorPath_counter_inj id c c',
+   Nut13.secretPath_ne_blindingFactorPath id id' c c', (Nut13.p2pkPath_ne id c).1, (Nut13.p2pkPath_ne id c).2⟩
+
+-- the reduction of the id modulo 2^31 − 1 is NOT injective (a property of NUT-13 itself, not of any implementation):
+-- the ids 0000000000000000 and 000000007fffffff share their secrets
+example : Nut13.keysetIdInt (natToBE 8 0) = Nut13.keysetIdInt (natToBE 8 (2 ^ 31 - 1)) := by decide
+
 /-- The wallet's P2PK key is at `m/129372'/0'/1'/0`. -/
 theorem p2pk_path : Nut13.p2pkPath = [2 ^ 31 + 129372, 2 ^ 31 + 0, 2 ^ 31 + 1, 0] := rfl
 
